@@ -37,11 +37,16 @@ func doLZ4Encode(data []byte, level int) ([]byte, error) {
 }
 
 func doLZ4Decode(buf []byte) ([]byte, error) {
-	dst := make([]byte, 10*len(buf))
-	n, err := lz4.UncompressBlock(buf, dst)
-	if err != nil {
-		return nil, err
+	// lz4的block并没有保存原始数据的长度，先使用10倍的空间，
+	// 如果空间不足（压缩率高于10倍的数据），再使用lz4的最大压缩率(255倍)
+	var err error
+	for _, ratio := range []int{10, 255} {
+		dst := make([]byte, ratio*len(buf))
+		n := 0
+		n, err = lz4.UncompressBlock(buf, dst)
+		if err == nil {
+			return dst[:n], nil
+		}
 	}
-	dst = dst[:n]
-	return dst, nil
+	return nil, err
 }
